@@ -1,6 +1,8 @@
 import AFModel.Ident
 import AFModel.IdentComp
 import AFProofs.Lemmas.IdentComp
+import AFModel.IdentJoin
+import AFProofs.Lemmas.IdentJoin
 
 /-!
 # C07 — the fit identifier is a stable, sensitive function of what is fitted
@@ -361,5 +363,68 @@ theorem arith_operand_names_enter_refuted (m : Meta) (op : BinOp) (ln ln2 rn : S
 
 example : skipKey "alpha" = false ∧ skipKey "left_" = false ∧ "alpha" ≠ "left_" ∧ "alpha" ≠ "right_" := by
   simp [skipKey]
+
+/-! ## the text that is hashed: `".".join(hash_list)` (`AFModel/IdentJoin.lean`) -/
+
+open AF.IdentJoin
+
+/-- **What the join forgets, exactly.** Two non-empty token lists are joined to the same text (and so
+get the same md5) if and only if they coincide after every token is cut at its dots. -/
+theorem join_eq_iff_pieces (l m : List String) (hl : l ≠ []) (hm : m ≠ []) :
+    joinTokens l = joinTokens m ↔ tokenPieces l = tokenPieces m := by
+  have hl2 : l.map String.toList ≠ [] := by simpa using hl
+  have hm2 : m.map String.toList ≠ [] := by simpa using hm
+  rw [← String.toList_inj, joinTokens_toList, joinTokens_toList, joinChars_eq_iff _ _ hl2 hm2]
+  constructor
+  · intro h; simp only [tokenPieces, h]
+  · intro h; exact map_ofList_injective _ _ h
+
+/-- on token lists without dots inside tokens the join is injective -/
+theorem join_injective_on_dotfree (l m : List String) (hl : l ≠ []) (hm : m ≠ [])
+    (dl : ∀ t ∈ l, dotFree t.toList = true) (dm : ∀ t ∈ m, dotFree t.toList = true)
+    (h : joinTokens l = joinTokens m) : l = m := by
+  have hl2 : l.map String.toList ≠ [] := by simpa using hl
+  have hm2 : m.map String.toList ≠ [] := by simpa using hm
+  rw [← String.toList_inj, joinTokens_toList, joinTokens_toList, joinChars_eq_iff _ _ hl2 hm2] at h
+  rw [piecesOfTokens_dotFree, piecesOfTokens_dotFree] at h
+  · exact map_toList_injective l m h
+  · intro t ht; obtain ⟨u, hu, rfl⟩ := List.mem_map.mp ht; exact dm u hu
+  · intro t ht; obtain ⟨u, hu, rfl⟩ := List.mem_map.mp ht; exact dl u hu
+
+/-- merging two neighbouring tokens into one with a dot between them does not change the text -/
+theorem join_merge_adjacent (pre : List String) (a b : String) (post : List String) :
+    joinTokens (pre ++ a :: b :: post) = joinTokens (pre ++ (a ++ "." ++ b) :: post) := by
+  rw [← String.toList_inj, joinTokens_toList, joinTokens_toList]
+  simp only [List.map_append, List.map_cons, String.toList_append]
+  have : ".".toList = ['.'] := by decide
+  rw [this]
+  simpa using joinChars_merge (pre.map String.toList) a.toList b.toList (post.map String.toList)
+
+/-- **Recorded defect (known finding C07-join-ambiguous).** Two different fits with the same identifier:
+a model whose last token is a fixed string `a`, fitted under the unique tag `b`, and the same model with
+the string `a.b`, fitted without a tag, have different token lists but the same hashed text (reproduced on
+the real code by the harness on every run, with a second witness: the list of integers `[1, 0]` against
+the list `[1.0]` inside a fixed component). -/
+theorem fit_join_collision_refuted (s : PyVal) (m : Meta) (path k a b : String) (hk : skipKey k = false) :
+    tokens (fitVal s (.model m path [(k, .str a)]) (some b))
+        ≠ tokens (fitVal s (.model m path [(k, .str (a ++ "." ++ b))]) none)
+      ∧ joinTokens (tokens (fitVal s (.model m path [(k, .str a)]) (some b)))
+        = joinTokens (tokens (fitVal s (.model m path [(k, .str (a ++ "." ++ b))]) none)) := by
+  have e1 : tokens (fitVal s (.model m path [(k, .str a)]) (some b))
+      = (tokens s ++ ["Model", "cls", path, k]) ++ a :: b :: [] := by
+    simp [fitVal, tokens, tokensList, tokens_reflect, ctokens, ctokensAttrs, hk]
+  have e2 : tokens (fitVal s (.model m path [(k, .str (a ++ "." ++ b))]) none)
+      = (tokens s ++ ["Model", "cls", path, k]) ++ (a ++ "." ++ b) :: [] := by
+    simp [fitVal, tokens, tokensList, tokens_reflect, ctokens, ctokensAttrs, hk]
+  rw [e1, e2]
+  refine ⟨?_, join_merge_adjacent _ a b []⟩
+  intro he
+  have := congrArg List.length he
+  simp at this
+
+example : joinTokens ["Lst", "values", "1", "0", "k"] = joinTokens ["Lst", "values", "1.0", "k"] :=
+  join_merge_adjacent ["Lst", "values"] "1" "0" ["k"]
+example : tokenPieces ["vlib.P2", "a", "1.5"] = ["vlib", "P2", "a", "1", "5"] := by decide
+example : dotFree "lower_limit".toList = true := by decide
 
 end AF.C07
